@@ -58,6 +58,17 @@ func (c *AttrCache) ConfigureNegativeCaching(enable bool, ttl time.Duration) {
 	if ttl > 0 {
 		c.negativeTTL = ttl
 	}
+
+	// Negative entries exist only while negative caching is enabled: drop the
+	// ones stored earlier so that Get stops answering "does not exist" for them.
+	if !enable {
+		for path, cached := range c.cache {
+			if cached.isNegative {
+				c.removeFromAccessLog(path)
+				delete(c.cache, path)
+			}
+		}
+	}
 }
 
 // Get retrieves cached attributes if they exist and are not expired.
